@@ -126,15 +126,18 @@ type Sched struct {
 	// is resumed makes the history cover everything it can have read (see foldShared for when).
 	Shared   func() string
 	inShared bool
-	Prune    bool // set by OnStep to cut the execution
-	Pruned   bool
-	Locals   map[string]any // per-execution storage for other packages (vsys, harness)
-	sysEpoch int
-	Lockset  []string // guarded state touched without its mutex (lockset assertions)
-	touched  map[uintptr]*touchState
-	mus      []*muState
-	unstable bool
-	stable   map[uintptr]string
+	// the execution's clock (timer.go): frozen at its first use, moved only by Advance
+	clockBase   time.Time
+	clockOffset time.Duration
+	Prune       bool // set by OnStep to cut the execution
+	Pruned      bool
+	Locals      map[string]any // per-execution storage for other packages (vsys, harness)
+	sysEpoch    int
+	Lockset     []string // guarded state touched without its mutex (lockset assertions)
+	touched     map[uintptr]*touchState
+	mus         []*muState
+	unstable    bool
+	stable      map[uintptr]string
 }
 
 var cur *Sched
